@@ -111,5 +111,5 @@ TokensSame == WF => CanonOf(Lex(Minify(in))) = CanonOf(lx)
 
 (* ---- documented purpose, model level only (the property does not demand it) ---- *)
 Shrinks == Len(Minify(in)) <= Len(in)
-Again   == WF => LET o == Minify(in) IN CanonOf(Lex(Minify(o))) = CanonOf(Lex(o))      \* minifying twice is as good as once
+
 =============================================================================
